@@ -184,7 +184,7 @@ func (tx *FnTx) exec(in ssa.Instruction, st *State) *State {
 		return tx.runDefers(st)
 	case *ssa.Go:
 		tx.note("goroutine started in " + tx.key + ": not followed; all heap state unknown afterwards")
-		return tx.h.havocAll(st)
+		return tx.havocAllP(st)
 	case *ssa.Jump, *ssa.If:
 		return st
 	case *ssa.Return:
@@ -217,10 +217,16 @@ func (tx *FnTx) exec(in ssa.Instruction, st *State) *State {
 		return st
 	case *ssa.Range:
 		tx.define(x, "")
+		if mt, ok := x.X.Type().Underlying().(*types.Map); ok {
+			// ghost set of the keys already produced by this iteration
+			n := st.clone()
+			srt := "(Array " + tx.d.sortOf(mt.Key()) + " Bool)"
+			n.ghost["visited!"+x.Name()] = Term{S: "((as const " + srt + ") false)", Sort: srt}
+			return n
+		}
 		return st
 	case *ssa.Next:
-		tx.next(x, st)
-		return st
+		return tx.next(x, st)
 	case *ssa.Send:
 		tx.note("channel send in " + tx.key + ": no effect on modelled state")
 		return st
@@ -674,24 +680,37 @@ func (tx *FnTx) lookup(x *ssa.Lookup, st *State) {
 	tx.assumeTyped(t, mt.Elem(), st)
 }
 
-func (tx *FnTx) next(x *ssa.Next, st *State) {
+func (tx *FnTx) next(x *ssa.Next, st *State) *State {
 	rng, _ := x.Iter.(*ssa.Range)
 	okt := Term{S: tx.d.fresh(x.Name()+"_ok", "Bool"), Sort: "Bool"}
 	if x.IsString || rng == nil {
 		tx.tuples[x] = []Term{okt, {S: tx.d.fresh("k", "Int"), Sort: "Int"}, {S: tx.d.fresh("r", "Int"), Sort: "Int"}}
 		tx.note("range over string in " + tx.key + ": unconstrained")
-		return
+		return st
 	}
 	mt := rng.X.Type().Underlying().(*types.Map)
 	m := tx.val(rng.X)
 	dom, val := tx.mapComps(mt)
 	dh := tx.h.heapTerm(st, dom)
 	vh := tx.h.heapTerm(st, val)
-	kt := Term{S: tx.d.fresh(x.Name()+"_k", tx.d.sortOf(mt.Key())), Sort: tx.d.sortOf(mt.Key()), GT: mt.Key()}
+	ks := tx.d.sortOf(mt.Key())
+	kt := Term{S: tx.d.fresh(x.Name()+"_k", ks), Sort: ks, GT: mt.Key()}
 	vt := Term{S: tx.d.fresh(x.Name()+"_v", tx.d.sortOf(mt.Elem())), Sort: tx.d.sortOf(mt.Elem()), GT: mt.Elem()}
-	tx.assume(simp(okt.S, sand("(not (= "+m.S+" 0))", sapp("select", sapp("select", dh, m.S), kt.S), "(= "+vt.S+" "+sapp("select", sapp("select", vh, m.S), kt.S)+")")))
+	vkey := "visited!" + rng.Name()
+	vsort := "(Array " + ks + " Bool)"
+	vis := tx.h.ghostTerm(st, vkey, vsort)
+	inDom := func(k string) string { return sapp("select", sapp("select", dh, m.S), k) }
+	// a produced key is in the map now and was not produced before; when the iteration ends every key still in the map
+	// has been produced (Go: entries removed before being reached are never produced; no insertion during iteration assumed)
+	tx.assume(simp(okt.S, sand("(not (= "+m.S+" 0))", inDom(kt.S), snot(sapp("select", vis.S, kt.S)), "(= "+vt.S+" "+sapp("select", sapp("select", vh, m.S), kt.S)+")")))
+	tx.nq++
+	qk := fmt.Sprintf("k_n%d", tx.nq)
+	tx.assume(simp(snot(okt.S), fmt.Sprintf("(forall ((%s %s)) (! (=> %s (select %s %s)) :pattern ((select %s %s))))", qk, ks, sand("(not (= "+m.S+" 0))", inDom(qk)), vis.S, qk, vis.S, qk)))
 	tx.assumeTyped(kt, mt.Key(), st)
 	tx.assumeTyped(vt, mt.Elem(), st)
 	tx.tuples[x] = []Term{okt, kt, vt}
-	tx.note("range over map in " + tx.key + ": arbitrary enumeration order, visited-set not tracked")
+	n := st.clone()
+	n.ghost[vkey] = Term{S: fmt.Sprintf("(ite %s (store %s %s true) %s)", okt.S, vis.S, kt.S, vis.S), Sort: vsort}
+	tx.note("range over map in " + tx.key + ": arbitrary enumeration order; ghost visited-set tracks produced keys; no insertion during iteration assumed")
+	return n
 }
